@@ -188,7 +188,12 @@ func TestCampaign(t *testing.T) {
 		cfg.MaxLen = 40
 		rapid.Check(t, func(rt *rapid.T) {
 			c := Case{Level: "L1", H: hgen.DrawHistory(rt, cfg)}
+			var wild string
+			c.H, wild = hgen.MaybeRename(rt, c.H, 20)
 			v := runCase(c)
+			if wild != "" {
+				v.Class("renamed:" + wild)
+			}
 			col.Check(rt, ev.JSON(c), v)
 		})
 	})
